@@ -3,6 +3,25 @@
 // Contracts for package gaussian (comment-only; read by /verif/bin/govc, see /verif/DESIGN.md §2.3).
 package gaussian
 
+//@ // ---- C14 (flag level): the gaussian trigger is built from the flags as the user gave them; --peak-rate, when given,
+//@ // replaces --volume by the volume computed from it
+//@ ghost var GFvol real
+//@ ghost var GFvolFromPeak bool
+//@ func Rate$1
+//@   props C14 C11
+//@   fp-abstract
+//@   requires flags != nil && output != nil && GJclaim == 0 && G12claim == 0
+//@   ghost at entry : GFvolFromPeak = false
+//@   ghost after call (*FlagSet).GetFloat64 : GFflt[arg1] = ret0
+//@   ghost after call (*FlagSet).GetDuration : GFdur[arg1] = ret0
+//@   ghost after call (*FlagSet).GetString : GFstr[arg1] = ret0
+//@   assert before call CalculateVolume : [peak-rate-as-given] arg0 == GFstr["peak-rate"] && arg1 == GFdur["peak"] && arg2 == GFdur["standard-deviation"] && GFstr["peak-rate"] != ""
+//@   ghost after call CalculateVolume : GFvol = ret0 ; GFvolFromPeak = true
+//@   assert before call CalculateGaussianRate : [flags-as-given] arg1 == GFflt["jitter"] && arg2 == GFdur["repeat"] && arg3 == GFdur["iteration-frequency"] && arg4 == GFdur["peak"] && arg5 == GFdur["standard-deviation"] &&
+//@          arg6 == GFstr["weights"] && arg7 == GFstr["distribution"] && (GFstr["peak-rate"] == "" ==> arg0 == GFflt["volume"]) && (GFstr["peak-rate"] != "" ==> GFvolFromPeak && arg0 == GFvol)
+//@   ensures [runnable] result.1 == nil ==> result.0 != nil && result.0.Trigger != nil && result.0.DryRun != nil
+//@   ensures [rejected] result.1 != nil ==> result.0 == nil
+//@
 //@ func NewCalculator
 //@   props C14
 //@   fp-abstract
@@ -43,6 +62,7 @@ package gaussian
 //@   loop 0 invariant -1 <= rangeindex && rangeindex < len(weights) && (rangeindex == -1 ==> totalWeight == 0.0) && (rangeindex == 0 ==> abs(totalWeight - weights[0]) <= abs(weights[0]) / 1048576.0 + 0.000000001)
 //@   ensures [no-weights-mean-one] result.1 == nil && len(weights) == 0 ==> result.0.averageWeight == 1.0
 //@   ensures [single-weight-is-its-own-mean] result.1 == nil && len(weights) == 1 ==> abs(result.0.averageWeight - weights[0]) <= abs(weights[0]) / 524288.0 + 0.00000001
+//@   ensures [the-mean-weight-can-be-divided-by] result.1 == nil ==> result.0.averageWeight != 0.0
 //@   ensures [stored-as-given] result.1 == nil ==> result.0 != nil && result.0.weights == weights && result.0.frequency == frequency && result.0.repeatWindow == repeatWindow
 //@
 //@ func (*Calculator).For
